@@ -18,7 +18,7 @@ pub enum Tok {
     Nil,
 }
 
-pub const CAP: usize = 48;
+pub const CAP: usize = 64;
 
 pub struct Rec {
     pub t: [Tok; CAP],
@@ -320,6 +320,24 @@ fn decomposed_serialize_names_fields() {
     assert!(bits(w.scale) == bits(s) && bits(w.disp.x) == bits(d[0]) && bits(w.disp.y) == bits(d[1]));
 }
 
+#[kani::proof]
+#[kani::unwind(36)]
+fn decomposed_unit_and_zero_scale_roundtrip() {
+    // concrete scale factors 1 and 0 (a serializer that drops "default-looking" fields must not pass), other payloads symbolic
+    let d: [f64; 2] = kani::any();
+    let rot: Basis2<f64> = Rotation2::from_angle(Rad(0.0));
+    let t = D2 { scale: 1.0, rot, disp: Vector2::new(d[0], d[1]) };
+    let r = ser(&t);
+    assert!(r.n == 31 && r.t[1] == Tok::Field("scale") && r.t[2] == f(1.0) && r.t[3] == Tok::Field("rot") && r.t[23] == Tok::Field("disp"));
+    let w: D2 = de(&r).unwrap();
+    assert!(bits(w.scale) == bits(1.0) && bits(w.disp.x) == bits(d[0]) && bits(w.disp.y) == bits(d[1]));
+    let t = D2 { scale: 0.0, rot, disp: Vector2::new(d[0], d[1]) };
+    let r = ser(&t);
+    assert!(r.n == 31 && r.t[1] == Tok::Field("scale") && r.t[2] == f(0.0));
+    let w: D2 = de(&r).unwrap();
+    assert!(bits(w.scale) == bits(0.0));
+}
+
 macro_rules! dec_order {
     ($name:ident, $o:expr) => {
         #[kani::proof]
@@ -361,3 +379,50 @@ dec_reject!(decomposed_missing_scale_rejected, 0, false);
 dec_reject!(decomposed_missing_rot_rejected, 1, false);
 dec_reject!(decomposed_missing_disp_rejected, 2, false);
 dec_reject!(decomposed_unknown_field_rejected, 9, true);
+
+#[kani::proof]
+#[kani::unwind(60)]
+fn matrix4_basis3_roundtrip() {
+    let a: [f64; 16] = kani::any();
+    let m = Matrix4::new(a[0], a[1], a[2], a[3], a[4], a[5], a[6], a[7], a[8], a[9], a[10], a[11], a[12], a[13], a[14], a[15]);
+    let r = ser(&m);
+    assert!(r.t[0] == Tok::Struct("Matrix4", 4) && r.t[1] == Tok::Field("x") && r.t[2] == Tok::Struct("Vector4", 4) && r.t[12] == Tok::Field("y")
+        && r.t[23] == Tok::Field("z") && r.t[34] == Tok::Field("w") && r.t[3] == Tok::Field("x") && r.t[9] == Tok::Field("w") && r.t[10] == f(a[3]));
+    let w: Matrix4<f64> = de(&r).unwrap();
+    let k: usize = kani::any();
+    kani::assume(k < 16);
+    assert!(bits(w[k / 4][k % 4]) == bits(a[k]));
+}
+
+#[kani::proof]
+#[kani::unwind(20)]
+fn perspective_planar() {
+    let a: [f64; 6] = kani::any();
+    let p = Perspective { left: a[0], right: a[1], bottom: a[2], top: a[3], near: a[4], far: a[5] };
+    let r = ser(&p);
+    expect!(r, [Tok::Struct("Perspective", 6), Tok::Field("left"), f(a[0]), Tok::Field("right"), f(a[1]), Tok::Field("bottom"), f(a[2]),
+                Tok::Field("top"), f(a[3]), Tok::Field("near"), f(a[4]), Tok::Field("far"), f(a[5]), Tok::End]);
+    let w: Perspective<f64> = de(&r).unwrap();
+    assert!(bits(w.left) == bits(a[0]) && bits(w.right) == bits(a[1]) && bits(w.bottom) == bits(a[2]) && bits(w.top) == bits(a[3]) && bits(w.near) == bits(a[4]) && bits(w.far) == bits(a[5]));
+    let q = PlanarFov { fovy: Rad(a[0]), aspect: a[1], height: a[2], near: a[3], far: a[4] };
+    let r = ser(&q);
+    expect!(r, [Tok::Struct("PlanarFov", 5), Tok::Field("fovy"), Tok::Newtype("Rad"), f(a[0]), Tok::Field("aspect"), f(a[1]), Tok::Field("height"), f(a[2]),
+                Tok::Field("near"), f(a[3]), Tok::Field("far"), f(a[4]), Tok::End]);
+    let w: PlanarFov<f64> = de(&r).unwrap();
+    assert!(bits(w.fovy.0) == bits(a[0]) && bits(w.aspect) == bits(a[1]) && bits(w.height) == bits(a[2]) && bits(w.near) == bits(a[3]) && bits(w.far) == bits(a[4]));
+}
+
+#[kani::proof]
+#[kani::unwind(40)]
+fn decomposed3_quaternion_roundtrip() {
+    let s: f64 = kani::any();
+    let q: [f64; 4] = kani::any();
+    let d: [f64; 3] = kani::any();
+    let t: Decomposed<Vector3<f64>, Quaternion<f64>> = Decomposed { scale: s, rot: Quaternion::new(q[3], q[0], q[1], q[2]), disp: Vector3::new(d[0], d[1], d[2]) };
+    let r = ser(&t);
+    assert!(r.t[0] == Tok::Struct("Decomposed", 3) && r.t[1] == Tok::Field("scale") && r.t[2] == f(s) && r.t[3] == Tok::Field("rot") && r.t[4] == Tok::Struct("Quaternion", 2)
+        && r.t[5] == Tok::Field("v") && r.t[14] == Tok::Field("s") && r.t[15] == f(q[3]) && r.t[17] == Tok::Field("disp") && r.t[18] == Tok::Struct("Vector3", 3));
+    let w: Decomposed<Vector3<f64>, Quaternion<f64>> = de(&r).unwrap();
+    assert!(bits(w.scale) == bits(s) && bits(w.rot.s) == bits(q[3]) && bits(w.rot.v.x) == bits(q[0]) && bits(w.rot.v.y) == bits(q[1]) && bits(w.rot.v.z) == bits(q[2])
+        && bits(w.disp.x) == bits(d[0]) && bits(w.disp.y) == bits(d[1]) && bits(w.disp.z) == bits(d[2]));
+}
